@@ -1,8 +1,19 @@
 """Registry entry, manifest texts for C12."""
 
-ENTRY = {'parts': [{'scenario': 'scenarios.s_pool', 'chunk': 6}],
-         'quick': {'runs': 2500, 'budget': 50}, 'thorough': {'runs': 150000, 'budget': 1200}}
+ENTRY = {'parts': [{'scenario': 'scenarios.s_pool', 'chunk': 6, 'frac': 0.75},
+                   {'scenario': 'scenarios.s_einfo', 'chunk': 50, 'frac': 0.25}],
+         'quick': {'runs': 3000, 'budget': 60}, 'thorough': {'runs': 200000, 'budget': 1200}}
 
-TEXT = {'level': 'TODO', 'ref': 'DESIGN.md 5 (C12), 4 (S-POOL)', 'note': 'TODO'}
-
-ENABLED = False
+TEXT = {'level': '(1) inside the pool simulation, for every failed job: the ExceptionInfo that crossed pickle -> '
+          'pipe -> unpickle has the original type and args (also BaseException subclasses, 1500-deep '
+          'recursion -> RecursionError), traceback text naming the raising frame, a tb the traceback module '
+          'formats and whose chain is bounded by the frame limit; an unserialisable (also nested) result '
+          'yields MaybeEncodingError on that job from a worker that stays alive. (2) the two input-only '
+          'clauses (depth sweep around the frame limit, stability under 0-4 further pickle round trips) are '
+          'a seeded sweep without any simulation - labelled as such.',
+ 'note': 'Trusted: the simulated kernel (simos) models Linux semaphores, pipes, poll, process table, signals '
+         'and wait statuses faithfully (stub conformance: selftest/conformance.py); BaseProcess._bootstrap '
+         'is replaced by a replica of its exit-code mapping (checked by C19); start method is spawn-like '
+         '(pickled copy). Workers die uncatchably only inside task code or between jobs; pipes do not lose '
+         'bytes. Sampling, not proof.',
+ 'ref': 'DESIGN.md 5 (C12), 6'}
